@@ -419,6 +419,8 @@ impl MetadataClient for LocalMetadataClient {
     ) -> Result<CompactionLease> {
         let mut leases = self.compaction_leases.write();
         let now = chrono::Utc::now();
+        #[cfg(feature = "verif_hooks")]
+        let now = now + crate::verif_hooks::clock_offset();
 
         // Scavenge expired active leases
         leases
@@ -483,6 +485,10 @@ impl MetadataClient for LocalMetadataClient {
                 )));
             }
             lease.expires_at = chrono::Utc::now() + chrono::Duration::seconds(300);
+            #[cfg(feature = "verif_hooks")]
+            {
+                lease.expires_at = lease.expires_at + crate::verif_hooks::clock_offset();
+            }
         } else {
             return Err(crate::Error::Internal(format!(
                 "Lease {} not found",
@@ -500,6 +506,8 @@ impl MetadataClient for LocalMetadataClient {
         let mut leases = self.compaction_leases.write();
         let original_count = leases.leases.len();
         let now = chrono::Utc::now();
+        #[cfg(feature = "verif_hooks")]
+        let now = now + crate::verif_hooks::clock_offset();
 
         leases.leases.retain(|_, lease| {
             if lease.status == LeaseStatus::Active {
